@@ -1167,6 +1167,55 @@ func ruleE12(c *Ctx) []Ob {
 			s.check(spaces, "annotation-bytes:"+fn.Name(), indexes, "the function that reads annotation bytes skips white space itself (tokenizer)", fn.Name()+" looks at bytes of the annotation directly without handling white space: the tokenizer skips spaces, a byte peek does not, so `Name >` and `Name>` are treated differently")
 		}
 	}
+	// every part of the tag is consumed: the list of remaining parts is emptied only where none is left. Dropping the rest
+	// on another condition (an empty type descriptor, say) silently loses the options written after it
+	if rf := c.SSA[pkgDefs].Func("DoResolveFields"); rf != nil {
+		for _, b := range rf.Blocks {
+			for _, ins := range b.Instrs {
+				phi, ok := ins.(*ssa.Phi)
+				if !ok {
+					continue
+				}
+				if sl, isSl := phi.Type().Underlying().(*types.Slice); !isSl || !isStringType(sl.Elem().Underlying()) {
+					continue
+				}
+				for i, e := range phi.Edges {
+					cst, isC := e.(*ssa.Const)
+					if !isC || cst.Value != nil {
+						continue
+					}
+					p := b.Preds[i]
+					cs := domConds(p)
+					if iff, ok := p.Instrs[len(p.Instrs)-1].(*ssa.If); ok && p.Succs[0] != p.Succs[1] {
+						cs = append(cs, Cond{V: iff.Cond, Truth: p.Succs[0] == b, If: iff})
+					}
+					none := false
+					for _, cd := range cs {
+						bo, ok := cd.V.(*ssa.BinOp)
+						if !ok {
+							continue
+						}
+						lc, isCall := stripConv(bo.X).(*ssa.Call)
+						n, isN := constInt(bo.Y)
+						if !isCall || !isN || !isBuiltin(lc, "len") {
+							continue
+						}
+						if _, isSl := lc.Call.Args[0].Type().Underlying().(*types.Slice); !isSl {
+							continue
+						}
+						switch {
+						case n == 0 && (bo.Op == token.EQL && cd.Truth || bo.Op == token.NEQ && !cd.Truth || bo.Op == token.LEQ && cd.Truth || bo.Op == token.GTR && !cd.Truth):
+							none = true
+						case n == 1 && (bo.Op == token.LSS && cd.Truth || bo.Op == token.GEQ && !cd.Truth):
+							none = true
+						}
+					}
+					s.check(none, "tag-parts:consumed", c.Pos(firstPos(p)), "the remaining tag parts are set to none only where none is left",
+						"the list of remaining tag parts is emptied on a path where it is not known to be empty (variable "+phi.Comment+"): the parts after that point - the options of the field - are dropped without being read or refused")
+				}
+			}
+		}
+	}
 	// the schema is made of the struct's own fields: promoted fields of embedded structs (reflect.VisibleFields) are not part of it
 	var vis []string
 	for _, fn := range c.ModuleFuncs(pkgDefs, pkgReflect) {
